@@ -27,6 +27,8 @@ LEVELS = {
         {'name': 'L2-N4-M2-K2-reps1', 'N': 4, 'M': 2, 'K': 2, 'reps': 1, 'Dpos': 1, 'budget_s': 90},
         {'name': 'L3-T1hist-M2-K3-reps6', 'templates': ['T1s', 'T1d'], 'M': 2, 'K': 3, 'hist': 1, 'guards': 0,
          'reps': 6, 'Dpos': 1, 'budget_s': 60},
+        {'name': 'L4-T1hist-fromInside-M2-K3', 'templates': ['T1s', 'T1d'], 'M': 2, 'K': 3, 'hist': 1, 'guards': 0,
+         'reps': 8, 'Dpos': 1, 'relax_w7': 1, 'budget_s': 60},
     ],
     'thorough': [
         {'name': 'L1-N3-M2-K3', 'N': 3, 'M': 2, 'K': 3, 'reps': 12, 'budget_s': 1800},
@@ -41,7 +43,7 @@ WITNESSES = ['snapshot_by_pickle', 'snapshot_by_deepcopy', 'old_used_after_resto
              'contract_error_in_all_three']
 STUBS = ['probes are reached through builtins (VF.G/VF.A/VF.DL) so that the interpreter context stays picklable',
          'proxies pickle through z3 serialize/deserialize']
-ASSUMPTIONS = ['well-formed charts (DESIGN §2)', 'events a / none, clock advances >= 0, delays >= 0 (exact reals)',
+ASSUMPTIONS = ['well-formed charts (DESIGN §2); the relax_w7 level also lets a history state be targeted from inside its parent', 'events a / none, clock advances >= 0, delays >= 0 (exact reals)',
                'snapshots at macro-step boundaries only', 'a bounded number of transition completions per skeleton ("reps", spread evenly); levels with Dpos assume D >= 0 (no contract failure)']
 OUTSIDE = ['charts above the level bounds', 'listeners / bound property statecharts at snapshot time',
            'evaluators other than PythonEvaluator', 'pickle protocol other than the default']
@@ -97,7 +99,8 @@ def expand(job, level):
         yield job['chart']
         return
     allc = list(cg.charts(job['skel'], level['M'], nevents=1, targets='free', fix=job.get('fix'),
-                          hist_target=bool(level.get('hist')), evented_only='templates' in level))
+                          hist_target=bool(level.get('hist')), evented_only='templates' in level,
+                          relax_w7=bool(level.get('relax_w7'))))
     reps = level.get('reps')
     if reps and len(allc) > reps:      # a few completions per shard, spread evenly (stated bound, not a sample of a claim)
         step = len(allc) / float(reps)
